@@ -25,6 +25,12 @@ pub(crate) trait ToFileTime {
 
 impl ToFileTime for Timestamp {
     fn to_file_time(&self) -> FileTime {
-        FileTime::from_unix_time(self.as_second(), self.subsec_nanosecond().cast_unsigned())
+        // FileTime wants the floor of the seconds and a non-negative fraction, which
+        // differs from jiff's representation for times before the epoch.
+        let nanos = self.as_nanosecond();
+        FileTime::from_unix_time(
+            nanos.div_euclid(1_000_000_000) as i64,
+            nanos.rem_euclid(1_000_000_000) as u32,
+        )
     }
 }
